@@ -219,7 +219,7 @@ def gen_op(rng: random.Random, cfg: dict, kind: str | None = None) -> dict:
         if kind == "save":
             fmts = ["internal"]
         if kind == "restart":
-            fmts = ["internal", "internal", "geff2", "geff3", "csv"]
+            fmts = ["internal", "internal", "geff2", "geff3", "csv", "from_tracks", "featuredict"]
         if kind == "reimport" and cfg.get("tier") == "thorough":
             fmts = fmts + ["csv_names"]
         op.update(fmt=rng.choice(fmts))
@@ -232,6 +232,7 @@ def gen_op(rng: random.Random, cfg: dict, kind: str | None = None) -> dict:
             # Ctrl+S: save again into the directory of this session's last save
             op["reuse_dir"] = rng.random() < 0.5
         if kind == "restart":
+            op["feat"] = rng.choice([None, "load", "recompute"])
             # crash after unsaved edits: rebuild from the last acknowledged save, if any
             op["late"] = rng.random() < 0.4
         if kind == "export" and rng.random() < cfg.get("subset", 0.5):
